@@ -9,4 +9,17 @@ for f in *.tla; do
   [ $r -ne 0 ] && rc=1
 done
 rm -rf .tlacache
+# Apalache: inductive invariants for unbounded parameters (each line: module, then the three obligations)
+if [ -d apalache ]; then
+  cd apalache
+  for f in *.tla; do
+    for step in "--init=Init --inv=IndInv --length=0" "--init=IndInit --inv=IndInv --length=1" "--init=IndInit --inv=Safe --length=0"; do
+      od=$(mktemp -d /verif/.work/apa_XXXXXX 2>/dev/null || mktemp -d)
+      out=$(timeout 900 apalache-mc check $step --out-dir="$od" "$f" 2>&1); r=$?
+      rm -rf "$od"
+      echo "apalache $f [$step]: $(echo "$out" | grep -E 'The outcome is' | sed 's/ *I@.*//')"
+      [ $r -ne 0 ] && rc=1
+    done
+  done
+fi
 exit $rc
